@@ -36,6 +36,11 @@ Clip(runs, hi) ==
   LET kept == SelectSeq(runs, LAMBDA r : r[1] < hi) IN
   [i \in 1..Len(kept) |->
      IF kept[i][1] + kept[i][2] > hi THEN <<kept[i][1], hi - kept[i][1], kept[i][3]>> ELSE kept[i]]
+\* the runs restricted to [lo, hi)
+Window(runs, lo, hi) ==
+  LET kept == SelectSeq(runs, LAMBDA r : r[1] < hi /\ r[1] + r[2] > lo) IN
+  [i \in 1..Len(kept) |->
+     LET a == Max(kept[i][1], lo) b == Min(kept[i][1] + kept[i][2], hi) IN <<a, b - a, kept[i][3]>>]
 \* bytes of [lo, hi) equal in both encodings
 ByteAt(runs, i) == LET k == CHOOSE k \in 1..Len(runs) : runs[k][1] <= i /\ i < runs[k][1] + runs[k][2] IN runs[k][3]
 SameRange(ra, rb, lo, hi) == \A i \in lo..(hi - 1) : ByteAt(ra, i) = ByteAt(rb, i)
